@@ -90,6 +90,14 @@ CLAIMED = {
    "Expectations follow the differs' documented normal forms (NO ACTION == RESTRICT == '' in MySQL, SQLite type classes, MayWrap); the catalogue never uses an edit whose before/after are equivalent under them. Charset/collation edits are not generated (DefaultDiff needs a live server to resolve defaults). "
    "PostgreSQL generated-expression changes are refused by the differ by design and are not in its catalogue.",
    "4/C02"),
+ "C16": ("exploration",
+   "enumeration of single catalogue edits x qualifier x plan mode + rapid PBT over edit sets; oracle = per-dialect identifier lexer over every planned and reverse statement (marker-name absence, exact qualifier on every table/type/index reference), rejection of spanning change sets",
+   "A schema named with a unique marker (tables, PG enums, typed/partial/include indexes, comments on tables/columns/indexes, FKs, generated columns) is created, dropped or modified (C02 catalogue edits) and planned by the MySQL and PostgreSQL planners "
+   "with qualifier {not requested, empty, custom} x plan mode {unset, in-place, deferred, dump}. Every Cmd and ReverseStmts() entry is tokenised (string literals skipped): with a requested qualifier the marker never appears and no statement creates/drops/alters a schema; "
+   "every table / enum-type reference (and index reference in DROP/ALTER/COMMENT ON INDEX for PostgreSQL) is preceded by exactly the requested qualifier (none for the empty one; the schema's own name when none was requested). "
+   "Change sets containing AddSchema/DropSchema, ModifySchema outside in-place modes, or tables of a second schema must make PlanChanges return an error.",
+   "References into other schemas through an enum type or a foreign key are tolerated by design (Builder.RefTable doc comment; pinned test TestPlanChanges 'Empty qualifier') and are not generated. Sequences of serial columns are not in the model.",
+   "4/C16"),
 }
 PENDING_REASON = "check not built yet in this session (planned in DESIGN.md section 4; will be claimed once its quick check is green and sensitivity-tested)"
 
